@@ -86,9 +86,13 @@ theorem initialEnter_life (env : Env) (c : Core) (hc : c.active = 255) :
 theorem query_quiet (env : Env) (s : St) : sig (query env s).2 = [] ∧ (query env s).1.core.active = s.core.active := by
   have hq : NoLife (query env) := by
     unfold query
-    exact silent_dep fun s0 => Silent.seq (noLife_deliver env .query rfl 255 {} {}) (noLife_deliver env .query rfl _ {} {})
+    generalize headFirst Method.query = hfq
+    cases hfq <;> simp only [if_true, if_false, Bool.false_eq_true] <;>
+    exact silent_dep fun s0 => Silent.seq (noLife_deliver env .query rfl _ {} {}) (noLife_deliver env .query rfl _ {} {})
   have hs : Stable (query env) := by
     unfold query
+    generalize headFirst Method.query = hfq
+    cases hfq <;> simp only [if_true, if_false, Bool.false_eq_true] <;>
     exact stable_dep fun s0 => Stable.seq (stable_deliver env _ _ _ _) (stable_deliver env _ _ _ _)
   exact ⟨sig_of_noLife hq s, (hs s).1⟩
 
@@ -477,7 +481,9 @@ theorem apiStep_guard_bound {w : World} {env : Env} (hL : env.cfg.L ≤ 255) {ta
   | query =>
     refine quiet ?_
     unfold query
-    exact silent_dep fun s0 => Silent.seq (noGuard_deliver env .query rfl 255 {} {}) (noGuard_deliver env .query rfl _ {} {})
+    generalize headFirst Method.query = hfq
+    cases hfq <;> simp only [if_true, if_false, Bool.false_eq_true] <;>
+    exact silent_dep fun s0 => Silent.seq (noGuard_deliver env .query rfl _ {} {}) (noGuard_deliver env .query rfl _ {} {})
   | change c d p =>
     refine quiet ?_
     intro s
@@ -615,8 +621,8 @@ theorem outcomes_cycle (env : Env) (pre mid post : Method)
     fun m hf hm => silent_phase methodPred_isOutcome env m hm hf
   unfold cycle
   simp only [Step.seq, Step.modify, List.nil_append, outcomes_append]
-  rw [outcomes_step_of_silent (hph pre true h1), outcomes_step_of_silent (hph mid true h2),
-    outcomes_step_of_silent (hph post false h3), outcomes_step_of_silent (silentG_processRequest methodPred_isOutcome exclCore_isOutcome env)]
+  rw [outcomes_step_of_silent (hph pre _ h1), outcomes_step_of_silent (hph mid _ h2),
+    outcomes_step_of_silent (hph post _ h3), outcomes_step_of_silent (silentG_processRequest methodPred_isOutcome exclCore_isOutcome env)]
   simp only [List.nil_append, List.append_nil]
   split
   · exact C09_exclusive env _
@@ -705,7 +711,7 @@ theorem cycle_noPlan (env : Env) (hb : NoAppendBeh env) (pre mid post : Method)
     (h1 : Excl Ev.isOutcome pre) (h2 : Excl Ev.isOutcome mid) (h3 : Excl Ev.isOutcome post) (s : St) (h : NoPlanQ s.core) :
     (cycle env pre mid post s).2.filter Ev.isOutcome = [] ∧ NoPlanQ (cycle env pre mid post s).1.core := by
   have hp := methodPred_isOutcome
-  let P1 : Step := Step.modify (fun s => { s with ts := .none }) ⋙ phase env pre true ⋙ phase env mid true ⋙ phase env post false
+  let P1 : Step := Step.modify (fun s => { s with ts := .none }) ⋙ phase env pre (headFirst pre) ⋙ phase env mid (headFirst mid) ⋙ phase env post (headFirst post)
   have hP1s : Silent Ev.isOutcome P1 :=
     Silent.seq (Silent.seq (Silent.seq (silent_modify _ _) (silent_phase hp env pre h1 _)) (silent_phase hp env mid h2 _)) (silent_phase hp env post h3 _)
   have hP1k : Keeps NoPlanQ P1 :=
@@ -724,6 +730,8 @@ theorem cycle_noPlan (env : Env) (hb : NoAppendBeh env) (pre mid post : Method)
 
 theorem query_keepsNP (env : Env) (hb : NoAppendBeh env) : Keeps NoPlanQ (query env) := by
   unfold query
+  generalize headFirst Method.query = hfq
+  cases hfq <;> simp only [if_true, if_false, Bool.false_eq_true] <;>
   exact keeps_dep fun s0 => Keeps.seq (keepsNP_deliver env hb _ _ _ _) (keepsNP_deliver env hb _ _ _ _)
 
 /-- an accepted call other than `plan().change…()`, on a core whose flag is down, by an instance whose
@@ -1061,6 +1069,8 @@ theorem apiStep_prevOk {w : World} {env : Env} (hwf : env.cfg.WF) {tag : ApiTag}
   | query =>
     have hq : PrevSame (query env) := by
       unfold query
+      generalize headFirst Method.query = hfq
+      cases hfq <;> simp only [if_true, if_false, Bool.false_eq_true] <;>
       exact prevSame_dep fun s0 => PrevSame.seq (prevSame_deliver env _ _ _ _) (prevSame_deliver env _ _ _ _)
     exact prevOk_of_same hc (hq _) (query_quiet env _).2
   | change => exact prevOk_of_same hc rfl rfl
